@@ -122,10 +122,10 @@ func htmlDoc(token string) []byte {
 	return []byte("<!DOCTYPE html>\n<html><head><title>t</title></head><body><h1>Heading</h1><p>" + token + "</p></body></html>\n")
 }
 
-func pdfDoc(token string) []byte {
+func pdfDoc(token, version string) []byte {
 	d := pdfw.Doc{Fonts: []pdfw.FontSpec{{Res: "F1", Kind: "t1win", Base: "Helvetica"}},
 		Pages: []pdfw.Page{{ID: 1, MediaBox: [4]float64{0, 0, 612, 792}, Lines: []pdfw.Line{{Font: 0, Size: 12, X: 72, Y: 700, Bytes: []byte(token), Text: token}}}}}
-	return pdfw.Write([]pdfw.Doc{d}, pdfw.Layout{}).Bytes
+	return pdfw.Write([]pdfw.Doc{d}, pdfw.Layout{Version: version}).Bytes
 }
 
 // ---------------------------------------------------------------------------
@@ -157,6 +157,10 @@ type Case struct {
 	Rights   bool  `json:"rights,omitempty"`
 	Enc      []Enc `json:"enc,omitempty"`
 	EmptyEnc bool  `json:"empty_enc,omitempty"` // an encryption.xml without entries
+	// ExtCase: letter case of the chapter files' extension: "" (.xhtml), upper (.XHTML), mixed (.Xhtml)
+	ExtCase string `json:"ext_case,omitempty"`
+	// PDF only: the header version ("" = 1.7); 2.0 is ISO 32000-2
+	PDFVersion string `json:"pdf_version,omitempty"`
 }
 
 func init() { vr.Register("admit", checkCase) }
@@ -178,6 +182,15 @@ func spellURI(path, how string) string {
 		return strings.ReplaceAll(epubw.EncodePath(path, ""), "t", "%74") // percent-encoding of an unreserved character is equivalent (RFC 3986 6.2.2.2)
 	case "dot":
 		return "./" + path
+	case "extesc":
+		// every character of the extension, and its dot, as a percent escape (RFC 3986 2.1: equivalent)
+		i := strings.LastIndexByte(path, '.')
+		var sb strings.Builder
+		sb.WriteString(epubw.EncodePath(path[:i], ""))
+		for k := i; k < len(path); k++ {
+			fmt.Fprintf(&sb, "%%%02X", path[k])
+		}
+		return sb.String()
 	}
 	return path
 }
@@ -185,7 +198,7 @@ func spellURI(path, how string) string {
 func (c Case) build() ([]byte, error) {
 	switch c.Format {
 	case "pdf":
-		return pdfDoc(c.Token), nil
+		return pdfDoc(c.Token, c.PDFVersion), nil
 	case "html":
 		return htmlDoc(c.Token), nil
 	}
@@ -194,6 +207,16 @@ func (c Case) build() ([]byte, error) {
 	pin := -1
 	if c.Format == "epub" {
 		b := epubBook(c.Token, max1(c.Chapters))
+		for i := range b.Items {
+			if strings.HasSuffix(b.Items[i].Path, ".xhtml") && b.Items[i].Role == "" {
+				switch c.ExtCase {
+				case "upper":
+					b.Items[i].Path = strings.TrimSuffix(b.Items[i].Path, ".xhtml") + ".XHTML"
+				case "mixed":
+					b.Items[i].Path = strings.TrimSuffix(b.Items[i].Path, ".xhtml") + ".Xhtml"
+				}
+			}
+		}
 		if c.Rights {
 			b.Rights = epubw.DefaultRights
 		}
@@ -364,6 +387,21 @@ func checkCase(c Case) error {
 				return fmt.Errorf("%s() of %s content named %q succeeded (%.80q); the same bytes under another supported extension must be refused", op, c.Format, c.FileName, res[op].text)
 			}
 		}
+		// ... also when asked again, or through an extractor derived from the refused one
+		e := tabula.Open(path)
+		if _, _, err := e.Text(); err == nil {
+			return fmt.Errorf("Text() of %s content named %q succeeded", c.Format, c.FileName)
+		}
+		if t, _, err := e.Text(); err == nil {
+			return fmt.Errorf("second Text() on the same extractor of %s content named %q succeeded (%.80q) after the first one was refused", c.Format, c.FileName, t)
+		}
+		if t, _, err := e.ToMarkdown(); err == nil {
+			return fmt.Errorf("ToMarkdown() on the same extractor of %s content named %q succeeded (%.80q) after Text() was refused", c.Format, c.FileName, t)
+		}
+		if t, _, err := e.ExcludeHeaders().Text(); err == nil {
+			return fmt.Errorf("Text() on an extractor derived from a refused one (%s content named %q) succeeded (%.80q)", c.Format, c.FileName, t)
+		}
+		e.Close()
 	case ext == "" || nameFmt == format.Unknown:
 		// no / unknown extension: an error or the correct text
 		for _, op := range ops {
@@ -492,6 +530,10 @@ func genAdmission(t *rapid.T) Case {
 	}
 	if f == "epub" {
 		c.Chapters = rapid.IntRange(1, 3).Draw(t, "chapters")
+		c.ExtCase = rapid.SampledFrom([]string{"", "", "upper", "mixed"}).Draw(t, "extCase")
+	}
+	if f == "pdf" {
+		c.PDFVersion = rapid.SampledFrom([]string{"", "1.4", "1.0", "2.0", "2.0"}).Draw(t, "pdfVersion")
 	}
 	return c
 }
@@ -512,9 +554,10 @@ func genDRM(t *rapid.T) Case {
 		seen[it] = true
 		c.Enc = append(c.Enc, Enc{Item: it,
 			Algorithm: rapid.SampledFrom([]string{algIDPF, algIDPF, algAdobe, algAES128, algAES256, algGCM, algUnknown}).Draw(t, "alg"),
-			Spelling:  rapid.SampledFrom([]string{"plain", "plain", "encoded", "dot"}).Draw(t, "spelling")})
+			Spelling:  rapid.SampledFrom([]string{"plain", "plain", "encoded", "dot", "extesc"}).Draw(t, "spelling")})
 	}
 	c.EmptyEnc = len(c.Enc) == 0 && rapid.Bool().Draw(t, "emptyEnc")
+	c.ExtCase = rapid.SampledFrom([]string{"", "", "upper", "mixed"}).Draw(t, "extCase")
 	return c
 }
 
@@ -557,6 +600,15 @@ func meta(c Case) vr.Meta {
 		}
 	}
 	sort.Strings(labels)
+	if c.PDFVersion != "" {
+		labels = append(labels, "pdf-version:"+c.PDFVersion)
+	}
+	if c.ExtCase != "" {
+		labels = append(labels, "chapter-extension:"+c.ExtCase)
+	}
+	for _, e := range c.Enc {
+		labels = append(labels, "uri-spelling:"+e.Spelling)
+	}
 	return vr.Meta{FP: string(js), NonTrivial: nt, Labels: labels}
 }
 
